@@ -14,7 +14,7 @@ from ..world import World
 ID = "C18"
 LEVEL = "fault_enumeration"
 RULE = ("scenario = URL assembled from scheme x host form (name, upper-case name, user-info, IPv4, bracketed IPv6) x "
-        "port {none,1,80,443,8080,65535} x path (empty, ;params, %xx) x query, or a malformed variant; host table of "
+        "port {none,1,80,443,8080,65535} x path (empty, ;params, %xx) x query, or a malformed variant (also on an object that is connected: that connection must stay untouched); host table of "
         "1..4 addresses (mixed families) each with outcome {accept, refused, unreachable, other error}; sockopt and "
         "timeout settings.  Oracle from the simulated network's log: resolver asked for (host without brackets, "
         "explicit port or 80/443); first wire bytes are a TLS ClientHello iff wss; request target = path-or-'/' "
